@@ -92,6 +92,8 @@ def gen_case(rng, kind, subtype, G, boxlimit, n_el=10):
     # inert elements at random positions
     order = list(range(len(els)))
     inert = [None] + gg.empty_elements(kind)
+    if kind == "point" and np.dtype(subtype).kind == "f":
+        inert.append([float("nan"), float("nan")])      # a present point without coordinates
     for e in inert:
         pos = int(rng.integers(0, len(order) + 1))
         order.insert(pos, ("inert", e))
@@ -202,7 +204,11 @@ def check_case(ctx, case, full=True):
     # ---- oracle ---------------------------------------------------------------------------
     exp = np.zeros((n, m), dtype=bool)
     for i, el in enumerate(elements):
-        el2 = gg.transform(el, kind, 2, 0, 0)
+        if kind == "point" and el is not None and gg.is_inert(kind, el):
+            el2 = None                   # NaN coordinates: intersects nothing
+            ctx.count("nan_points_checked")
+        else:
+            el2 = gg.transform(el, kind, 2, 0, 0)
         exp[i] = og.element_box_many(kind, el2, B)
         cls, overlap = relation_classes(kind, el2, B, exp[i])
         for c in np.unique(cls):
@@ -231,7 +237,7 @@ def check_case(ctx, case, full=True):
         bad = np.nonzero(impl[i] != exp[i])[0]
         if len(bad):
             j = int(bad[0])
-            inert = el is None or not og.flat_coords(kind, el)
+            inert = gg.is_inert(kind, el)
             clause = "inert-true" if inert else "truth"
             mech = f"intersects_bounds:{kind}:{'inert' if inert else cls[j]}"
             small = {"kind": kind, "subtype": subtype, "elements": elements, "cells": None,
